@@ -18,7 +18,10 @@ TECHNIQUE = ("CBMC bounded model checking of runtime.c / dispatchers / helpers f
              "units by symbolic execution of clang-14 LLVM IR over a shared bit-level XOR-AND graph (structural identity + kissat SAT sweeping)")
 
 
-E2_EQUIV = ["argon2-fill-ssse3", "argon2-fill-avx2", "argon2-fill-avx512f", "scrypt-smix-sse2", "chacha20-ssse3", "chacha20-avx2", "salsa20-sse2", "salsa20-avx2", "blake2b-ssse3", "blake2b-sse41", "blake2b-avx2"]
+E2_EQUIV = ["argon2-fill-ssse3", "argon2-fill-avx2", "argon2-fill-avx512f", "scrypt-smix-sse2", "chacha20-ssse3", "chacha20-avx2", "salsa20-sse2", "salsa20-avx2"]
+# not registered: blake2b-ssse3 / blake2b-sse41 / blake2b-avx2 (irsym/equiv_targets.py).  The sweeping merges the two
+# compression functions steadily (57 000 internal equivalences proved in 2 000 s) but did not close the 512 output bits
+# within the thorough budget in the last runs; a target without a verdict is not claimed (DESIGN.md section 3, C10)
 
 
 def obligations(tier):
